@@ -16,6 +16,8 @@
 #include <string.h>
 #include <time.h>
 #include "vrt.h"
+#include "myth_verif.h"
+#define U vrt_user
 
 enum { OP_END = 0, OP_CR = 1, OP_JN = 2, OP_TJ = 3, OP_DT = 4, OP_YD = 5, OP_EX = 6, OP_RET = 7,
        OP_LK = 8, OP_TL = 9, OP_UL = 10, OP_INC = 11, OP_CWAIT = 12, OP_CSIG = 13, OP_CBC = 14,
@@ -37,22 +39,47 @@ static myth_join_counter_t jcs[MAXO]; static myth_uncond_t ucs[MAXO]; static myt
 static myth_once_t onces[MAXO]; static volatile long shared[MAXO]; static volatile long inside[MAXO];
 static volatile long vars[MAXO]; static myth_key_t keys[MAXO];
 static int bar_n[MAXO], jc_n[MAXO];
+static volatile long bufcnt[MAXO];        /* bounded buffer b: mutex b, cond 2b (not full), cond 2b+1 (not empty), capacity bufcap[b] */
+static long bufcap[MAXO];
+static volatile long ucw[MAXO];           /* uncond mailbox word: bit0 full, bit1 somebody sleeping, value << 2 */
+static volatile long produced[MAXO], consumed[MAXO];
+#define MXID(i) VMX(&mtx[i])
+#define CVID(i) VCV(&cnd[i])
+#define BRID(i) VBR(&bar[i])
+#define JCID(i) VJC(&jcs[i])
+#define UCID(i) VUC(&ucs[i])
+#define ONID(i) VON(&onces[i])
+#define FEID(i) VFE(&fes[i])
+static void lock_(int k, int m){ U("U_LockCall", 2, (long)k, MXID(m)); myth_mutex_lock(&mtx[m]); U("U_LockRet", 2, (long)k, MXID(m)); }
+static void unlock_(int k, int m){ U("U_UnlockCall", 2, (long)k, MXID(m)); myth_mutex_unlock(&mtx[m]); U("U_UnlockRet", 2, (long)k, MXID(m)); }
+static int trylock_(int k, int m){ int rc; U("U_TryLockCall", 2, (long)k, MXID(m)); rc = myth_mutex_trylock(&mtx[m]); U("U_TryLockRet", 3, (long)k, MXID(m), (long)rc); return rc; }
+static void cwait_(int k, int c, int m){ U("U_CondWaitCall", 3, (long)k, CVID(c), MXID(m)); myth_cond_wait(&cnd[c], &mtx[m]); U("U_CondWaitRet", 3, (long)k, CVID(c), MXID(m)); }
+static void csig_(int k, int c, int bc){ U("U_CondSignalCall", 3, (long)k, CVID(c), (long)bc); if (bc) myth_cond_broadcast(&cnd[c]); else myth_cond_signal(&cnd[c]); U("U_CondSignalRet", 2, (long)k, CVID(c)); }
+static void yield_(int k, int opt){ U("U_YieldCall", 2, (long)k, (long)opt); myth_yield_ex(opt); U("U_YieldRet", 1, (long)k); }
+static void critical(int k, int m){ long v;
+  /* occupancy witness: nobody else may be inside between lock and unlock */
+  inside[m]++; v = shared[m]; if (inside[m] != 1) U("U_Broken", 2, (long)k, (long)m);
+  shared[m] = v + 1; inside[m]--; }
 static volatile long once_runs[MAXO];
 
 typedef struct { int k; long tok; } targ_t;
 static targ_t targs[MAXB];
 
-#define U vrt_user
 
 static long run_ops(int k);
 
-static void once_fn0(void){ U("U_OnceBody", 1, 0L); once_runs[0]++; myth_yield(); U("U_OnceBodyEnd", 1, 0L); }
-static void once_fn1(void){ U("U_OnceBody", 1, 1L); once_runs[1]++; U("U_OnceBodyEnd", 1, 1L); }
+static myth_thread_t self_of[MAXB];
+static int cur_body(void);
+static void once_fn0(void){ U("U_OnceBody", 1, VON(&onces[0])); once_runs[0]++;
+  U("U_YieldCall", 2, (long)cur_body(), 0L); myth_yield(); U("U_YieldRet", 1, (long)cur_body());
+  U("U_OnceBodyEnd", 1, VON(&onces[0])); }
+static void once_fn1(void){ U("U_OnceBody", 1, VON(&onces[1])); once_runs[1]++; U("U_OnceBodyEnd", 1, VON(&onces[1])); }
 
 static void *body_fn(void *a_){
   targ_t *a = a_; int k = a->k;
   U("U_BodyStart", 2, (long)k, a->tok);
   long v = run_ops(k);   /* plain return; default value 1000 + k, or the operand of RET */
+  self_of[k] = 0;
   cell[k] = 5000 + k;
   U("U_BodyEnd", 3, (long)k, v, 0L);
   return (void *)v;
@@ -62,7 +89,7 @@ static void *body_fn(void *a_){
 static __attribute__((noinline)) void nested_exit(int k, long v, int depth){
   volatile char pad[64]; pad[0] = (char)depth;
   if (depth > 0) { nested_exit(k, v, depth - 1); pad[1] = pad[0]; return; }
-  cell[k] = 5000 + k;
+  cell[k] = 5000 + k; self_of[k] = 0;
   U("U_BodyEnd", 3, (long)k, v, 1L);
   myth_exit((void *)v);
 }
@@ -90,8 +117,10 @@ static void do_create(int k, op_t *o){
   U("U_CreateRet", 2, (long)k, (long)c);
 }
 
+static int cur_body(void){ int i; myth_thread_t me_ = myth_self(); for (i = 0; i < MAXB; i++) if (self_of[i] == me_) return i; return 0; }
 static long run_ops(int k){
   body_t *b = &bodies[k]; int i;
+  self_of[k] = myth_self();
   for (i = 0; i < b->n; i++){
     op_t *o = &b->ops[i];
     switch (o->op){
@@ -119,10 +148,56 @@ static long run_ops(int k){
     case OP_EX: nested_exit(k, (long)o->a, 3); break;
     case OP_RET: return (long)o->a;
     case OP_SETV: vars[o->a] = o->b; break;
+    case OP_LK: lock_(k, o->a); break;
+    case OP_UL: unlock_(k, o->a); break;
+    case OP_INC: /* lock; critical section (optionally yielding inside); unlock */
+      lock_(k, o->a); critical(k, o->a); if (o->b) yield_(k, o->b - 1); unlock_(k, o->a); break;
+    case OP_TL: /* trylock; on success critical section and unlock, otherwise (c != 0) retry after a yield */
+      for (;;){ if (trylock_(k, o->a) == 0){ critical(k, o->a); if (o->b) yield_(k, o->b - 1); unlock_(k, o->a); break; }
+        if (!o->c) break; yield_(k, myth_yield_option_local_first); }
+      break;
+    case OP_CWAIT: /* a = buffer: consume one item */
+      { int b_ = o->a; lock_(k, b_);
+        while (bufcnt[b_] == 0) cwait_(k, 2 * b_ + 1, b_);
+        bufcnt[b_]--; consumed[b_]++;
+        csig_(k, 2 * b_, o->b);
+        unlock_(k, b_); break; }
+    case OP_CSIG: /* a = buffer: produce one item */
+      { int b_ = o->a; lock_(k, b_);
+        while (bufcnt[b_] == bufcap[b_]) cwait_(k, 2 * b_, b_);
+        bufcnt[b_]++; produced[b_]++;
+        csig_(k, 2 * b_ + 1, o->b);
+        unlock_(k, b_); break; }
+    case OP_WAITV: /* gate: wait under mutex a / cond 2a until vars[a] == b */
+      { int g = o->a; lock_(k, g); while (vars[g] != o->b) cwait_(k, 2 * g, g); unlock_(k, g); break; }
+    case OP_CBC: /* gate: set vars[a] = b and broadcast (c = 1) or signal (c = 0) */
+      { int g = o->a; lock_(k, g); vars[g] = o->b; csig_(k, 2 * g, o->c); unlock_(k, g); break; }
+    case OP_BAR: { int rc; U("U_BarrierCall", 2, (long)k, BRID(o->a)); rc = myth_barrier_wait(&bar[o->a]);
+        U("U_BarrierRet", 4, (long)k, BRID(o->a), (long)rc, (long)bar_n[o->a]); break; }
+    case OP_JCDEC: U("U_JcDecCall", 2, (long)k, JCID(o->a)); myth_join_counter_dec(&jcs[o->a]); U("U_JcDecRet", 2, (long)k, JCID(o->a)); break;
+    case OP_JCWAIT: U("U_JcWaitCall", 2, (long)k, JCID(o->a)); myth_join_counter_wait(&jcs[o->a]); U("U_JcWaitRet", 3, (long)k, JCID(o->a), (long)jc_n[o->a]); break;
+    case OP_UCSIG: /* mailbox put (documented uncond protocol, as in tests/myth_uncond_signal.c) */
+      { int u = o->a; for (;;){ long old = ucw[u];
+          if (old & 1){ if (__sync_bool_compare_and_swap(&ucw[u], old, old | 2)){ U("U_UcWaitCall", 2, (long)k, UCID(u)); myth_uncond_wait(&ucs[u]); U("U_UcWaitRet", 2, (long)k, UCID(u)); } }
+          else if (__sync_bool_compare_and_swap(&ucw[u], old, ((long)o->b << 2) | 1)){
+            if (old & 2){ U("U_UcSignalCall", 2, (long)k, UCID(u)); myth_uncond_signal(&ucs[u]); U("U_UcSignalRet", 2, (long)k, UCID(u)); }
+            produced[u]++; break; } }
+        break; }
+    case OP_UCWAIT: /* mailbox get */
+      { int u = o->a; for (;;){ long old = ucw[u];
+          if (old & 1){ if (__sync_bool_compare_and_swap(&ucw[u], old, 0)){
+              if (old & 2){ U("U_UcSignalCall", 2, (long)k, UCID(u)); myth_uncond_signal(&ucs[u]); U("U_UcSignalRet", 2, (long)k, UCID(u)); }
+              consumed[u]++; break; } }
+          else if (__sync_bool_compare_and_swap(&ucw[u], old, old | 2)){ U("U_UcWaitCall", 2, (long)k, UCID(u)); myth_uncond_wait(&ucs[u]); U("U_UcWaitRet", 2, (long)k, UCID(u)); } }
+        break; }
+    case OP_ONCE: U("U_OnceCall", 2, (long)k, ONID(o->a)); myth_once(&onces[o->a], o->a == 0 ? once_fn0 : once_fn1); U("U_OnceRet", 2, (long)k, ONID(o->a)); break;
+    case OP_FEWL: U("U_FeWaitLockCall", 3, (long)k, FEID(o->a), (long)o->b); myth_felock_wait_and_lock(&fes[o->a], o->b); U("U_FeWaitLockRet", 3, (long)k, FEID(o->a), (long)o->b); break;
+    case OP_FEMS: U("U_FeMarkCall", 3, (long)k, FEID(o->a), (long)o->b); myth_felock_mark_and_signal(&fes[o->a], o->b); U("U_FeMarkRet", 3, (long)k, FEID(o->a), (long)o->b); break;
     case OP_BUSY: { volatile int j; for (j = 0; j < o->a; j++) { } break; }
     default: fprintf(stderr, "mythprog: unknown op %d\n", o->op); exit(2);
     }
   }
+  self_of[k] = 0;
   return 1000 + k;
 }
 
@@ -131,11 +206,12 @@ static long run_ops(int k){
 static void quiesce(void){
   int guard = 0;
   for (;;){
-    long before = vrt_nevents();
+    const char *nm = ""; long la = -1;
     U("U_YieldCall", 2, 0L, (long)myth_yield_option_local_only);
     myth_yield_ex(myth_yield_option_local_only);
     U("U_YieldRet", 1, 0L);
-    if (vrt_nevents() - before == 3 && vrt_all_others_idle()) break;
+    /* ... YieldBeg, QPop(q,0), YieldEnd, U_YieldRet: the local queue was empty, nothing was switched to */
+    if (vrt_peek(3, &nm, &la) && !strcmp(nm, "QPop") && la == 0 && vrt_all_others_idle()) break;
     if (++guard > 100000) break;
   }
 }
@@ -144,7 +220,12 @@ int main(int argc, char **argv){
   FILE *fp; int i, j; vrt_opts vo; myth_globalattr_t ga;
   if (argc < 2){ fprintf(stderr, "usage: mythprog prog\n"); return 2; }
   fp = fopen(argv[1], "r"); if (!fp){ perror(argv[1]); return 2; }
+  int nini;
   if (fscanf(fp, "%d", &nbodies) != 1 || nbodies > MAXB) return 2;
+  for (i = 0; i < MAXO; i++){ bar_n[i] = 2; jc_n[i] = 1; bufcap[i] = 1; }
+  if (fscanf(fp, "%d", &nini) != 1) return 2;
+  for (i = 0; i < nini; i++){ int kind, idx, n; if (fscanf(fp, "%d %d %d", &kind, &idx, &n) != 3) return 2;
+    if (kind == 1) bar_n[idx] = n; else if (kind == 2) jc_n[idx] = n; else if (kind == 3) bufcap[idx] = n; }
   for (i = 0; i < nbodies; i++){
     if (fscanf(fp, "%d", &bodies[i].n) != 1) return 2;
     bodies[i].ops = calloc(bodies[i].n + 1, sizeof(op_t));
@@ -157,6 +238,11 @@ int main(int argc, char **argv){
   myth_globalattr_set_n_workers(&ga, vo.nworkers);
   myth_globalattr_set_bind_workers(&ga, 0);
   myth_init_ex(&ga);
+  for (i = 0; i < MAXO; i++){
+    myth_mutex_init(&mtx[i], 0); myth_cond_init(&cnd[i], 0); myth_barrier_init(&bar[i], 0, bar_n[i]);
+    myth_join_counter_init(&jcs[i], 0, jc_n[i]); myth_uncond_init(&ucs[i]); myth_felock_init(&fes[i], 0);
+    onces[i].state = 0;
+  }
   vrt_arm(&vo, myth_self());
   U("U_BodyStart", 2, 0L, 0L);
   run_ops(0);
